@@ -347,13 +347,15 @@ class Waiting(State):
         self._waiting_future.set_exception(reason)
 
     async def execute(self) -> State:  # type: ignore
+        future = self._waiting_future
         try:
-            result = await self._waiting_future
+            result = await future
         except Interruption:
             # Deal with the interruption (by raising) but make sure our internal
             # state is back to how it was before the interruption so that we can be
-            # re-executed
-            self._waiting_future = futures.Future()
+            # re-executed (a wake-up that arrived after the interruption has already done so)
+            if self._waiting_future is future:
+                self._waiting_future = futures.Future()
             raise
 
         if result == NULL:
@@ -363,13 +365,26 @@ class Waiting(State):
 
         return cast(State, next_state)  # casting from base.State to process.State
 
+    def _pending_future(self) -> Optional[futures.Future]:
+        """The future a wake-up has to be put in, `None` if the wait has been woken up already.
+
+        When the waiting future carries an interruption that `execute()` has not dealt with yet, the wake-up goes into
+        a fresh future which `execute()` finds when the process is stepped again: a wake-up is never lost to an interruption.
+        """
+        future = self._waiting_future
+        if not future.done():
+            return future
+        if not future.cancelled() and isinstance(future.exception(), Interruption):
+            self._waiting_future = futures.Future()
+            return self._waiting_future
+        return None
+
     def resume(self, value: Any = NULL) -> None:
         assert self._waiting_future is not None, 'Not yet waiting'
 
-        if self._waiting_future.done():
-            return
-
-        self._waiting_future.set_result(value)
+        future = self._pending_future()
+        if future is not None:
+            future.set_result(value)
 
 
 class Excepted(State):
